@@ -568,6 +568,23 @@ func randomSystemHistory(r *rand.Rand, nops int) []SysAct {
 		h = append(h, SysAct{A: "Frag", F: 1, C: inner}, SysAct{A: "Plain", C: inner})
 		h = append(h, SysAct{A: "Frag", F: 1, C: a}, SysAct{A: "Plain", C: a})
 	}
+	if r.Intn(8) == 0 {
+		// front matter that names a path the File references: rendered, THEN the canonical import path is set to that very
+		// path (or a header / package comment is added), rendered again - the annotation changes the package clause only
+		q := sysPaths[r.Intn(len(sysPaths))]
+		c := newCell()
+		h = append(h, SysAct{A: "NewVar", N: fresh()})
+		h = append(h, SysAct{A: "AppQual", C: c, P: q, N: sysSym(q)})
+		f := 1 + r.Intn(nfiles)
+		h = append(h, SysAct{A: "FileAdd", F: f, C: c}, SysAct{A: "Render", F: f})
+		switch r.Intn(3) {
+		case 0:
+			h = append(h, SysAct{A: "Header", F: f, N: "generated; do not edit"})
+		case 1:
+			h = append(h, SysAct{A: "PkgComment", F: f, N: "Package main does things."})
+		}
+		h = append(h, SysAct{A: "Canonical", F: f, P: q}, SysAct{A: "Render", F: f}, SysAct{A: "Frag", F: f, C: c})
+	}
 	if r.Intn(4) == 0 {
 		// a failing render in between: a statement is rendered on its own, then another statement that references a path
 		// with the same base name FAILS to format (two adjacent identifiers), then the first is rendered again - the
@@ -665,7 +682,9 @@ func randomSystemHistory(r *rand.Rand, nops int) []SysAct {
 			h = append(h, SysAct{A: []string{"Header", "PkgComment"}[r.Intn(2)], F: f, N: t})
 		case k == 22:
 			if r.Intn(2) == 0 {
-				h = append(h, SysAct{A: "Canonical", F: f, P: []string{"example.com/canon", "example.com/v2"}[r.Intn(2)]})
+				// (also a path that the File references or may come to reference: the annotation names the package's canonical
+				// import path and changes nothing else)
+				h = append(h, SysAct{A: "Canonical", F: f, P: []string{"example.com/canon", "example.com/v2", p, p}[r.Intn(4)]})
 			} else {
 				h = append(h, SysAct{A: "Preamble", F: f, N: []string{"#include <a.h>", "int f();\nint g();", "#cgo LDFLAGS: -lm", "#include <math.h>\n"}[r.Intn(4)]})
 			}
